@@ -28,7 +28,11 @@ class RichMrgnEditor:
         # TODO: unit test the creation MRGN lookup here too https://github.com/sethmachine/richchk/issues/80
         loc_by_id = {loc.index: loc for loc in new_locations if loc.index is not None}
         id_by_loc = {loc: loc.index for loc in new_locations if loc.index is not None}
-        for i, loc in enumerate(unique_locations_to_add):
+        # place the locations that already carry an index first, so that an index
+        # they claim is never handed out to a location without one
+        for i, loc in enumerate(
+            sorted(unique_locations_to_add, key=lambda x: x.index is None)
+        ):
             if not allocable_indices:
                 self.log.error(
                     f"No more allocable indices left.  Have we run out of locations?  "
@@ -36,7 +40,7 @@ class RichMrgnEditor:
                 )
                 break
             if loc.index is not None:
-                if not location_lookup.get_location_by_id(loc.index):
+                if loc.index not in loc_by_id:
                     new_loc = self._build_new_location_with_index(loc, loc.index)
                     new_locations.append(new_loc)
                     assert loc.index is not None
